@@ -46,6 +46,17 @@ fn run_stream(seed: u32, count: u64) -> (String, Res) {
     (req, r)
 }
 
+/// outputs from an explicit state (hook): `index` = 624 forces a regeneration at the first draw
+fn run_state(buf: Vec<u32>, index: usize, count: u64) -> (String, Res) {
+    let words: Vec<u64> = buf.iter().map(|x| *x as u64).collect();
+    let req = format!("state {} {} {}", tus(&words), tu(index as u64), tu(count));
+    let mut r = Res::new();
+    let mut mt = MersenneTwister::verif_from_state(buf, index);
+    let out: Vec<u64> = (0..count).map(|_| mt.u32() as u64).collect();
+    r.g("out", tus(&out));
+    (req, r)
+}
+
 fn run_maps(raw: u32, imin: i32, imax: i32, fmin: f32, fmax: f32, dmin: f64, dmax: f64) -> (String, Res) {
     let req = format!("maps {} {} {} {} {} {} {}", tu(raw as u64), ti(imin as i64), ti(imax as i64), tg(fmin), tg(fmax), tf(dmin), tf(dmax));
     let mut r = Res::new();
@@ -75,6 +86,40 @@ pub fn generate(rng: &mut Rng, thorough: bool, out: &mut Out) {
     }
     for _ in 0..(if thorough { 60 } else { 12 }) {
         let (q, r) = run_stream(rng.next() as u32, if thorough { 6000 } else { 4000 });
+        out.case(q, r);
+    }
+    // seeds with boundary bit patterns (the masks 0x80000000 / 0x7fffffff and their neighbours, powers of two)
+    let mut special: Vec<u32> = vec![0x80000000, 0x7fffffff, 0x80000001, 0x7ffffffe, 0xfffffffe, 2, 3];
+    for k in 1..32 {
+        special.push(1u32 << k);
+        if thorough {
+            special.push((1u32 << k).wrapping_sub(1));
+        }
+    }
+    for sd in special {
+        let (q, r) = run_stream(sd, 1300);
+        out.case(q, r);
+    }
+    // explicit states (hook): boundary words everywhere / at the loop boundaries of the regeneration
+    // (cells 0, 1, 226, 227, 396, 397, 622, 623) of otherwise random buffers; two regenerations each
+    let words: [u32; 10] = [0x80000000, 0x7fffffff, 0xffffffff, 0, 1, 0x80000001, 0xfffffffe, 0x7ffffffe, 0x40000000, 0x9908b0df];
+    for &w in &words {
+        let (q, r) = run_state(vec![w; 624], 624, 1300);
+        out.case(q, r);
+    }
+    for k in 0..(if thorough { 400 } else { 40 }) {
+        let mut buf: Vec<u32> = (0..624).map(|_| rng.next() as u32).collect();
+        for &cell in &[0usize, 1, 226, 227, 228, 396, 397, 398, 622, 623] {
+            if rng.chance(0.6) {
+                buf[cell] = words[rng.below(10) as usize];
+            }
+        }
+        for _ in 0..rng.below(40) {
+            let cell = rng.below(624) as usize;
+            buf[cell] = words[rng.below(10) as usize];
+        }
+        let index = if k % 4 == 0 { rng.below(625) as usize } else { 624 };
+        let (q, r) = run_state(buf, index, 1300);
         out.case(q, r);
     }
     // the 129 raw values for which the published f32_0_1 returned 1.0, and their neighbours
@@ -133,6 +178,11 @@ pub fn replay(toks: &[&str], out: &mut Out) -> bool {
         f32::from_bits(u32::from_str_radix(&s[1..], 16).unwrap())
     };
     let (q, r) = match toks[0] {
+        "state" => {
+            let n = t.len();
+            let buf: Vec<u32> = (0..n).map(|_| t.u() as u32).collect();
+            run_state(buf, t.u() as usize, t.u())
+        }
         "stream" => run_stream(t.u() as u32, t.u()),
         "maps" => {
             let u = t.u() as u32;
